@@ -6,10 +6,13 @@ package main
 import (
 	"bufio"
 	"bytes"
+	"encoding/binary"
 	"fmt"
 	"io"
 	"os"
 	"path/filepath"
+	"strings"
+	"verif/gen"
 
 	"verif/mc"
 
@@ -557,6 +560,54 @@ func init() {
 		x.InputID = hashBytes([]byte(fmt.Sprint(s.name, pi, hide)))
 		x.Outcome = s.kind
 	}
+	// (7) the type Decode reports is the type of the first 24 bytes, wherever the Exif block of a HEIF stream starts
+	// (the header search walks through several buffer fills before it finds the block)
+	h7 := func(x *mc.Exec) {
+		var heic []byte
+		for i, n := range names {
+			if strings.Contains(strings.ToLower(n), "hei") {
+				heic = hs[i]
+				break
+			}
+		}
+		if heic == nil {
+			panic(mc.HarnessError{Msg: "c09: no HEIF header among the canonical headers"})
+		}
+		wi := x.All("window", 4)
+		base := []int{24, 4030, 8100, 12170}[wi]
+		mark := [][]byte{nil, {0xff, 0xd8, 0xff, 0xe0}, []byte("BM"), []byte("\x89PNG\r\n\x1a\n")}[x.All("foreign-signature-before-the-block", 4)]
+		tb := gen.EncodeTIFF(gen.MinimalRecord(), gen.CanonicalLayout(), binary.BigEndian, gen.AllDirs).B
+		fs := newFailSet("decode.type-with-late-header")
+		n := 0
+		pristine()
+		wantT, _ := imagetype.Buf(append([]byte{}, heic...))
+		for k := base; k < base+90; k++ {
+			st := append([]byte{}, heic...)
+			for len(st) < k {
+				st = append(st, 'x')
+			}
+			if mark != nil && k-40 > 24 {
+				copy(st[k-40:], mark)
+			}
+			st = append(append(st, tb...), bytes.Repeat([]byte{0}, 64)...)
+			n++
+			d := runDecode(imagemeta.Decode, st)
+			if d.Panic != nil {
+				fs.add(d.Panic.Signature(), d.Panic.Value)
+				continue
+			}
+			if d.Err == nil && d.Exif.ImageType != wantT {
+				fs.add("type-differs-from-the-first-24-bytes", fmt.Sprintf("HEIF header, Exif block at offset %d: Decode reports %v, the first 24 bytes say %v", k, d.Exif.ImageType, wantT))
+			}
+			if d.Err != nil || d.Exif.Make == "" {
+				fs.add("block-not-decoded", fmt.Sprintf("HEIF header, Exif block at offset %d: err=%v make=%q", k, d.Err, d.Exif.Make))
+			}
+		}
+		x.Bulk = int64(n) - 1
+		x.InputID = hashBytes([]byte(fmt.Sprint("late", wi, len(mark))))
+		x.Outcome = fmt.Sprint(len(fs.order))
+		fs.flush(x, n)
+	}
 	register(&mc.Check{
 		Property: "C09",
 		Spaces: func(tier string) []mc.Space {
@@ -566,6 +617,7 @@ func init() {
 				{Name: "lengths-and-suffixes", H: h4, NoLevels: true, Rule: "canonical header x every length 0..24 x suffix menu (1 byte, 4 KiB of 0xFF, two foreign headers, and every signature token any predicate looks for placed at bytes 24.., 28.. and repeated)"},
 			}
 			sp = append(sp, mc.Space{Name: "three-byte-prefixes", H: h5, NoLevels: true, Rule: "all 2^24 values of bytes 0..2 in front of 4 fixed rests (filler, a TIFF header at 3, the rest of an ftyp box, the rest of a JFIF header): Buf against the table, and the 24-byte window must come back unchanged"})
+			sp = append(sp, mc.Space{Name: "decode-type-with-late-header", H: h7, NoLevels: true, Rule: "a HEIF header followed by filler and an Exif block at every offset in 24..113, 4030..4119, 8100..8189, 12170..12259 (around the refills of the 4096-byte reader), with and without a JPEG / BMP / PNG signature 40 bytes before the block: imagemeta.Decode reports the type of the first 24 bytes and decodes the block"})
 			sp = append(sp, mc.Space{Name: "decode-on-a-positioned-reader", H: h6, NoLevels: true, Rule: "every seed behind every canonical header of another format, behind 100 filler bytes and behind 4096 bytes of 0xFF, handed to imagemeta.Decode as a ReadSeeker standing at the start of the seed (with and without a ReadAt method): type, record and error equal those of the seed alone"})
 			if tier == "thorough" {
 				sp = append(sp, mc.Space{Name: "two-byte-perturbations", H: h2(false), NoLevels: true, Rule: "canonical header x every position pair x all 65536 value pairs, Buf against the table"})
